@@ -159,7 +159,7 @@ void a_pid_fuzzy_out_(a_pid_fuzzy *ctx, a_real ec, a_real e)
             }
             ctx->idx[i] *= ctx->nrule;
         }
-        inv = 1 / inv;
+        if (inv > 0) { inv = 1 / inv; } /* no rule fires: keep the base gains */
     }
     /* mean of centers defuzzifier */
     if (ctx->mkp)
